@@ -127,6 +127,71 @@ def matrix_case(r: int, c: int, rot: int, immutable: bool) -> tuple[str, str, st
     return key, "matrix", ""
 
 
+def matrix_product_cases() -> list[tuple[str, str, str]]:
+    """unevaluated matrix products with scalar factors (symplyphysics.Matrix * scalar, MatMul): the
+    rendering, read under ordinary precedence with every matrix literal as one opaque factor, has
+    the value of the product of the scalar factors times the matrices"""
+    from symplyphysics import Matrix
+    from symplyphysics.docs.printer_code import code_str
+    L = printspace.setup()
+    a, b, c = L["a"], L["b"], L["c"]
+    M = Matrix([[a, b], [c, a * b]])
+    N = Matrix([[c, 2], [b, a]])
+    v = sp.Matrix([[a], [b]])
+    scalars = {"a+b": a + b, "a-b": a - b, "a/2+1": a / 2 + 1, "2": sp.Integer(2), "-a": -a,
+        "a*b": a * b, "1/c": 1 / c, "a**2": a**2, "-a-b": -a - b}
+    out = []
+    syms = printspace.symbols()
+    names = [s_.display_name for s_ in syms]
+    for sname, sc in scalars.items():
+        products = {"M*s": (lambda: M * sc, 1, 1), "MatMul(s,M,v)": (lambda: sp.MatMul(sc, M, v), 1,
+            2), "MatMul(M,s,N)": (lambda: sp.MatMul(M, sc, N), 1, 2), "MatMul(s,s,M)": (lambda:
+            sp.MatMul(sc, sc, M), 2, 1)}
+        for pname, (mk, n_scalar, n_mats) in products.items():
+            key = f"matrix-product:{pname}:{sname}"
+            try:
+                e = mk()
+                text = code_str(e)
+            except Exception as ex:  # pylint: disable=broad-except
+                out.append((key, "matrix", f"rendering raised {type(ex).__name__}: {short(ex)}"))
+                continue
+            # replace every top-level bracketed literal by a placeholder factor
+            plain, depth, count, start = "", 0, 0, 0
+            for i, ch in enumerate(text):
+                if ch == "[":
+                    if depth == 0:
+                        count += 1
+                        plain += f"MATRIX{count}"
+                    depth += 1
+                elif ch == "]":
+                    depth -= 1
+                elif depth == 0:
+                    plain += ch
+            plain = plain.replace(".T", "")
+            viol = ""
+            if count != n_mats:
+                viol = f"{count} matrix literals in {text!r}, expected {n_mats}"
+            else:
+                try:
+                    tree = parse_code.parse(plain, names + [f"MATRIX{i + 1}" for i in range(count)])
+                    for pt in POINTS:
+                        env = {k_: printspace.point_mp(v_) for k_, v_ in pt.items()}
+                        mats = {f"MATRIX{i + 1}": mpmath.mpf(7 + 4 * i) / 3 for i in range(count)}
+                        rep = {s_: printspace.point_value(pt[s_.display_name]) for s_ in syms}
+                        want = mp_value(sc, rep)**n_scalar
+                        for m_ in mats.values():
+                            want = want * m_
+                        got = parse_code.evaluate(tree, {**env, **mats})
+                        if not values.close(got, want, 1e-25, 1e-40):
+                            viol = (f"{text!r} read with the matrices as opaque factors is not the "
+                                f"scalar {sname} (x{n_scalar}) times the matrices")
+                            break
+                except (parse_code.ParseError, parse_code.Opaque) as ex:
+                    viol = f"{text!r} does not parse: {ex}"
+            out.append((key, "matrix", viol))
+    return out
+
+
 # ---- catalogue ------------------------------------------------------------------------------------
 
 
@@ -253,6 +318,12 @@ def _work(item: tuple) -> dict:
                 count(outcome)
                 if viol:
                     res["violations"].append((key, viol, {"matrix": [r_, c_, rot, imm]}))
+        for key, outcome, viol in matrix_product_cases():
+            res["n"] += 1
+            res["keys"].append(key)
+            count(outcome)
+            if viol:
+                res["violations"].append((key, viol, {"matrix_product": key}))
     elif kind == "trees":
         for d in payload:
             res["n"] += 1
@@ -339,6 +410,8 @@ def replay(case: dict) -> list[str]:
     if "tree" in case:
         r = canonical_case(explore.tup(case["tree"]))
         return [r[2]] if r and r[2] else []
+    if "matrix_product" in case:
+        return [v for k, _, v in matrix_product_cases() if v and k == case["matrix_product"]]
     if "matrix" in case:
         r_, c_, rot, imm = case["matrix"]
         return [v for v in [matrix_case(r_, c_, rot, imm)[2]] if v]
